@@ -116,6 +116,10 @@ HOSTILE.append((["#define ISHASH(c) ((c)=='#')", "#define F(x) ('x' + x)", "#def
                 "ISHASH(35) F(1) S G(2) H(3)"))
 # GNU extension: the comma is dropped when the variable argument is absent altogether
 HOSTILE.append((["#define E(fmt, ...) f(fmt, ## __VA_ARGS__)"], "E(1) E(x) end"))
+# white space in front of a function-like invocation survives the replacement (it shows when the result is stringified,
+# and when it forms the operand of a computed #include)
+HOSTILE.append((["#define ID(x) x", "#define STR(x) #x", "#define XSTR(x) STR(x)", "#define F(a, b) a b", "#define EMPTY"],
+                "XSTR(a ID(b)) XSTR(a  ID(b) c) XSTR(ID(a) ID(b)) XSTR(x F(1, 2) y) XSTR(a ID( b )) XSTR(( ID(b))) XSTR(a ID(ID(b))) XSTR(a EMPTY ID(b)) XSTR(inc/my ID(hdr).h)"))
 
 ARITH = [
     (["#define ADD(a,b) ((a)+(b))", "#define SQ(x) x*x", "#define TWO 2"], ["ADD(1,2)", "SQ(1+2)", "SQ(TWO)", "ADD(SQ(2),TWO)", "ADD(,1)", "SQ((1+2))"]),
@@ -141,7 +145,7 @@ def required_cells(tier):
             "-D:object", "-D:empty-value", "-D:valued", "-D:function-like", "via-#if", "via-#include", "re-evaluated-define", "deep-chain", "class:E", "class:R",
             "layout:forced-include-defaults-a-command-line-macro", "layout:headers-outside-root", "layout:headers-inside-root",
             "layout:multi-line-comment-inside-directive-followed-by-tokens", "layout:comment-line-ending-in-star", "definitions-as-implicit-options",
-            "definitions-as-implicit-options:gcc-compared"]
+            "definitions-as-implicit-options:gcc-compared", "layout:splice-inside-a-token-of-a-directive", "strict:hand-checked-entry"]
 
 
 # ------------------------------------------------------------- CBI driver --
@@ -398,7 +402,8 @@ def process_batch(ctx, drv, batch, work):
                           "witness": {"shrunk": {"defines": sh_defs, "text": sh_text, "gcc": (sg or "").strip(),
                                                  "cbi": sval if sst == "exc" else " ".join(x for _, x in sval)},
                                       "defines": defines, "text": text, "gcc": gtext.strip(), "problems": problems[:4]}},
-                         mechanism=classify(drv, sh_defs, sh_text, work), cells=cells, nontrivial=nontriv, cls=cls)
+                         mechanism=None if "strict:hand-checked-entry" in extra else classify(drv, sh_defs, sh_text, work),
+                         cells=cells, nontrivial=nontriv, cls=cls)
         else:
             acc.held(cells=cells, nontrivial=nontriv, cls=cls,
                      sample={"defines": defines, "text": text, "expansion": gtext.strip(), "expander_steps": steps})
@@ -709,7 +714,12 @@ def comment_layout_class(ctx, work):
                          "#define TWICE(x) ((x) + (x))",
                          f"#if TWICE(0) {com('c')} == 0", "cbi_m_c_5;", "#else", "cbi_m_c_6;", "#endif",
                          f"#if 0 {com('d')} + 1", "cbi_m_c_7;", f"#elif SCALE(1) {com('e')} == 2 {com('f')} && WIDTH", "cbi_m_c_8;", "#else", "cbi_m_c_9;", "#endif",
-                         f"#undef WIDTH {com('g')}", "#ifdef WIDTH", "cbi_m_c_10;", "#else", "cbi_m_c_11;", "#endif", ""]
+                         f"#undef WIDTH {com('g')}", "#ifdef WIDTH", "cbi_m_c_10;", "#else", "cbi_m_c_11;", "#endif",
+                         # a backslash-newline inside a directive is deleted without a trace: between a macro name and
+                         # its `(`, inside a number, inside a name
+                         "#define DOUBLE\\", "(x) ((x) * 2)", "#if DOUBLE(4) == 8", "cbi_m_c_12;", "#else", "cbi_m_c_13;", "#endif",
+                         "#define VALUE 1\\", "0", "#if VALUE == 10", "cbi_m_c_14;", "#else", "cbi_m_c_15;", "#endif",
+                         "#define LO\\", "NG(a) a\\", "+a", "#if LONG(3) == 6 && defined(LO\\", "NG)", "cbi_m_c_16;", "#else", "cbi_m_c_17;", "#endif", ""]
                 text = "\n".join(parts)
                 src = os.path.join(work, "comment_layout.c")
                 with open(src, "w") as f:
@@ -718,7 +728,7 @@ def comment_layout_class(ctx, work):
                 if not g["ok"]:
                     acc.excluded("gcc-diagnostic", cls="comment-layout")
                     continue
-                cells = ["layout:multi-line-comment-inside-directive-followed-by-tokens"]
+                cells = ["layout:multi-line-comment-inside-directive-followed-by-tokens", "layout:splice-inside-a-token-of-a-directive"]
                 if end.rstrip().endswith("*"):
                     cells.append("layout:comment-line-ending-in-star")
                 case = {"text": text}
@@ -868,6 +878,10 @@ def run_shard(ctx):
             extra = list(HOSTILE_CELLS.get(i, []))
             if len(defs) > 100:
                 extra.append("deep-chain")
+            if "XSTR(a ID(b))" in text:
+                # verified by hand to agree with gcc token for token and blank for blank: whatever makes it differ is
+                # not one of the recorded findings (their classifiers look at the kind of difference, not at its cause)
+                extra.append("strict:hand-checked-entry")
             batch.append((defs, text, "E", extra))
     process_batch(ctx, drv, batch, work)
     rng = ctx.rng("random")
